@@ -30,11 +30,12 @@ fn model(variant: usize) -> ModelDef {
 }
 
 #[derive(Clone, Debug)]
-enum St { M(MOp), Load, LoadF, SetModel(usize), SetAdapter(Vec<Vec<String>>), SetRm, Build, Enable(bool), SetEft, AddFn, AutoBuild(bool), AutoSave(bool), Rejected(MOp) }
+enum St { Notify(bool), M(MOp), Load, LoadF, SetModel(usize), SetAdapter(Vec<Vec<String>>), SetRm, Build, Enable(bool), SetEft, AddFn, AutoBuild(bool), AutoSave(bool), Rejected(MOp) }
 
 fn st_line(s: &St) -> Vec<String> {
     match s {
         St::M(op) => vec![op.line()],
+        St::Notify(v) => vec![format!("e.auto\tnotify\t{}", v)],
         St::Load => vec!["e.load".into()],
         St::LoadF => vec![format!("e.loadf\t{}\t-", enc_list(&sv(&["alice"])))],
         St::SetModel(_) => vec!["e.setmodel".into()],
@@ -74,7 +75,7 @@ fn gen_step(rng: &mut Rng) -> St {
         25 => St::SetEft,
         26 => St::AddFn,
         27 => St::AutoBuild(rng.chance(1, 2)),
-        28 => St::AutoSave(rng.chance(1, 2)),
+        28 => if rng.chance(1, 2) { St::AutoSave(rng.chance(1, 2)) } else { St::Notify(rng.chance(1, 3)) },
         _ => St::Rejected(MOp::Add("p".into(), "p".into(), gen_p(rng, &subs))),
     }
 }
@@ -126,7 +127,7 @@ pub fn run(rec: &mut Recorder, w: &mut World, tier: &str, seed: u64) {
         St::M(MOp::Rm("p".into(), "p".into(), sv(&["alice", "d1", "read", "allow"]))),
         St::M(MOp::Clear), St::Load, St::LoadF, St::SetModel(1), St::SetModel(2), St::SetModel(3),
         St::SetAdapter(vec![sv(&["p", "p", "bob", "d2", "read", "allow"])]), St::SetRm, St::Build,
-        St::Enable(false), St::Enable(true), St::SetEft, St::AddFn, St::AutoBuild(false), St::AutoBuild(true), St::AutoSave(false),
+        St::Enable(false), St::Enable(true), St::Notify(false), St::M(MOp::RmF("p".into(), "p".into(), 0, sv(&["alice"]))), St::SetEft, St::AddFn, St::AutoBuild(false), St::AutoBuild(true), St::AutoSave(false),
     ];
     let l = if tier == "thorough" { 3 } else { 2 };
     let mut hists: Vec<Vec<St>> = vec![];
@@ -153,7 +154,7 @@ pub fn run(rec: &mut Recorder, w: &mut World, tier: &str, seed: u64) {
             let descr: Vec<String> = hist.iter().take(step).map(|s| st_line(s).join(" / ").replace('\t', " ")).collect();
             rec.fail("stale-cached-decision", format!("after {}: cached enforcer answered {} where the uncached twin answers {} (query kind {})", descr.join(" ; "), cached[i], plain[i], ["enforce", "enforce_with_context(2)", "context r2/p2/e2/m3", "context r2/p2/e2/m2", "context r2/p2/e/m2"][i % 5]));
         }
-        for s in hist { rec.count(&format!("op:{}", match s { St::M(op) => op.kind(), St::Load => "load_policy", St::LoadF => "load_filtered_policy", St::SetModel(_) => "set_model", St::SetAdapter(_) => "set_adapter", St::SetRm => "set_role_manager", St::Build => "build_role_links", St::Enable(_) => "enable_enforce", St::SetEft => "set_effector", St::AddFn => "add_function", St::AutoBuild(_) => "auto_build", St::AutoSave(_) => "auto_save", St::Rejected(_) => "rejected" })); }
+        for s in hist { rec.count(&format!("op:{}", match s { St::M(op) => op.kind(), St::Load => "load_policy", St::LoadF => "load_filtered_policy", St::SetModel(_) => "set_model", St::SetAdapter(_) => "set_adapter", St::SetRm => "set_role_manager", St::Build => "build_role_links", St::Enable(_) => "enable_enforce", St::SetEft => "set_effector", St::AddFn => "add_function", St::AutoBuild(_) => "auto_build", St::AutoSave(_) => "auto_save", St::Notify(_) => "auto_notify", St::Rejected(_) => "rejected" })); }
         rec.nontrivial_case(&format!("{:?}", hist));
         if hi == n_ex { rec.sample(hist.iter().take(8).map(|s| st_line(s).join(" / ").replace('\t', " ")).collect::<Vec<_>>().join(" ; ")); }
     }
